@@ -607,8 +607,75 @@ func (g *grammarCtx) listRule(r *RuleResult) {
 			}
 		}
 	}
+	if !okFlag {
+		// the other sound shape: the error is decided from the look-ahead before any member is parsed, and no other
+		// return is reached without a member having been parsed (except when the opening token was absent)
+		var cbBlocks = map[*ssa.BasicBlock]bool{}
+		allInstrs(some, func(in ssa.Instruction) {
+			if ci, ok := in.(ssa.CallInstruction); ok {
+				if _, isPrm := ci.Common().Value.(*ssa.Parameter); isPrm {
+					cbBlocks[in.Block()] = true
+				}
+			}
+		})
+		okShape := len(cbBlocks) > 0
+		errBlocks := map[*ssa.BasicBlock]bool{}
+		// the calls that record the emptiness error themselves (not helpers that may fail for other reasons)
+		var direct []ssa.CallInstruction
+		for _, ec := range errCalls {
+			for _, callee := range g.f.calleesOf[ec] {
+				if callee == g.m.next {
+					continue
+				}
+				stores := false
+				allInstrs(callee, func(in ssa.Instruction) {
+					if st, ok := in.(*ssa.Store); ok && g.m.fieldAddr(st.Addr, "err") {
+						stores = true
+					}
+				})
+				if stores {
+					direct = append(direct, ec)
+				}
+			}
+		}
+		if len(direct) == 0 {
+			okShape = false
+		}
+		for _, ec := range direct {
+			errBlocks[ec.Block()] = true
+			for cb := range cbBlocks {
+				if reachAvoiding(cb, nil, nil)[ec.Block()] {
+					okShape = false // a member was parsed and the list is still called empty
+				}
+			}
+		}
+		noMember := reachAvoiding(some.Blocks[0], func(b *ssa.BasicBlock) bool { return cbBlocks[b] }, nil)
+		for b := range noMember {
+			if _, isRet := b.Instrs[len(b.Instrs)-1].(*ssa.Return); !isRet {
+				continue
+			}
+			viaErr := false
+			for eb := range errBlocks {
+				if eb.Dominates(b) {
+					viaErr = true
+				}
+			}
+			absent := false
+			for _, cd := range condsAt(b) {
+				if !cd.True && g.f.isConsumePredResult(cd.V) {
+					absent = true // the opening token was not there
+				}
+			}
+			if !viaErr && !absent {
+				okShape = false
+			}
+		}
+		if okShape {
+			okFlag = true
+		}
+	}
 	if okFlag {
-		r.OK("some: the empty-list error is decided by a local flag set in the loop body", "")
+		r.OK("some: the empty-list error is decided before a member is parsed or by a local flag set in the loop body", "")
 	} else {
 		r.Fail(errCalls[0].Pos(), p.FuncName(some), "emptiness not decided by a loop-local flag", "whether the list was empty is not decided by a flag that the loop body sets: deciding it from parser state (e.g. the last consumed token) lets a comment between the delimiters count as a member")
 	}
